@@ -34,23 +34,27 @@ type Failure struct {
 
 // X is one execution.
 type X struct {
-	prefix  []int
-	choices []int
-	arities []int
-	labels  []string
-	isDev   []bool
-	fails   []Failure
-	outcome []string
-	notes   []string
-	replay  bool // strict replay: prefix must cover every point
-	diverge string
-	Verbose bool
+	prefix   []int
+	choices  []int
+	arities  []int
+	labels   []string
+	isDev    []bool
+	isPre    []bool
+	fails    []Failure
+	outcome  []string
+	notes    []string
+	preBound int
+	replay   bool // strict replay: prefix must cover every point
+	diverge  string
+	Verbose  bool
 	// Sched is an opaque slot for the scheduler engine (E3) to hang its
 	// per-execution state on.
 	Sched any
 }
 
-func (x *X) point(n int, label string, dev bool) int {
+func (x *X) point(n int, label string, dev bool) int { return x.pointK(n, label, dev, false) }
+
+func (x *X) pointK(n int, label string, dev, pre bool) int {
 	if n <= 0 {
 		panic(fmt.Sprintf("venum: choice point %q with arity %d", label, n))
 	}
@@ -67,7 +71,28 @@ func (x *X) point(n int, label string, dev bool) int {
 	x.arities = append(x.arities, n)
 	x.labels = append(x.labels, label)
 	x.isDev = append(x.isDev, dev)
+	x.isPre = append(x.isPre, pre)
 	return c
+}
+
+// Preempt returns a value in [0,n): a scheduling decision where 0 means "keep
+// running the current thread" and any other value switches away from a thread
+// that could have continued; it costs one preemption against Cfg.PreemptBound.
+func (x *X) Preempt(n int, label string) int { return x.pointK(n, label, false, true) }
+
+// PreemptBudgetLeft reports how many more preemptions this execution may take
+// (a large number when unbounded). Set by Explore before the body runs.
+func (x *X) PreemptBudgetLeft() int {
+	if x.preBound < 0 {
+		return 1 << 30
+	}
+	used := 0
+	for i, p := range x.isPre {
+		if p && x.choices[i] != 0 {
+			used++
+		}
+	}
+	return x.preBound - used
 }
 
 type divergence struct{ msg string }
@@ -115,10 +140,16 @@ func (x *X) Depth() int { return len(x.choices) }
 type Cfg struct {
 	Name     string // space name, unique inside a property
 	DevBound int    // max number of non-default Deviate answers per execution (-1: unbounded)
-	MaxExec  int64  // cap on executions (0: none). Hitting it sets exhaustive=false.
+	// PreemptBound is the max number of non-zero Preempt answers per execution
+	// (-1: unbounded). Only scheduler-driven harnesses use it.
+	PreemptBound int
+	MaxExec      int64 // cap on executions (0: none). Hitting it sets exhaustive=false.
 	// Shardable says the first choice point may be split across worker
 	// processes (VERIF_SHARD=i/n): its arity must not depend on anything.
 	Shardable bool
+	// CheckDeterminism re-runs the first execution and requires an identical
+	// choice/label trace and outcome (engine error otherwise).
+	CheckDeterminism bool
 	// MinOutcomes is the vacuity guard: fewer distinct outcomes than this marks
 	// the space vacuous (default 2).
 	MinOutcomes int
@@ -126,19 +157,20 @@ type Cfg struct {
 
 // Space is the report of one exploration.
 type Space struct {
-	Name        string           `json:"name"`
-	Executions  int64            `json:"executions"`
-	Transitions int64            `json:"transitions"`
-	States      int64            `json:"states"` // distinct outcome fingerprints (E1) or canonical states (E2)
-	MaxDepth    int              `json:"max_depth"`
-	DevBound    int              `json:"dev_bound"`
-	Exhaustive  bool             `json:"exhaustive"`
-	CapHit      string           `json:"cap_hit,omitempty"`
-	Vacuous     bool             `json:"vacuous,omitempty"`
-	Samples     []string         `json:"samples,omitempty"`
-	Shard       string           `json:"shard,omitempty"`
-	WallS       float64          `json:"wall_s"`
-	Extra       map[string]int64 `json:"extra,omitempty"`
+	Name         string           `json:"name"`
+	Executions   int64            `json:"executions"`
+	Transitions  int64            `json:"transitions"`
+	States       int64            `json:"states"` // distinct outcome fingerprints (E1) or canonical states (E2)
+	MaxDepth     int              `json:"max_depth"`
+	DevBound     int              `json:"dev_bound"`
+	PreemptBound int              `json:"preempt_bound"`
+	Exhaustive   bool             `json:"exhaustive"`
+	CapHit       string           `json:"cap_hit,omitempty"`
+	Vacuous      bool             `json:"vacuous,omitempty"`
+	Samples      []string         `json:"samples,omitempty"`
+	Shard        string           `json:"shard,omitempty"`
+	WallS        float64          `json:"wall_s"`
+	Extra        map[string]int64 `json:"extra,omitempty"`
 	// Hashes carries the outcome fingerprints when the run is sharded, so the
 	// runner can count distinct outcomes across shards.
 	Hashes        []string `json:"hashes,omitempty"`
@@ -287,11 +319,17 @@ func loadReplay() *replayFile {
 }
 
 // runOne executes body once under the given prefix.
+var curPreBound = -1
+
 func runOne(prefix []int, body func(*X), verbose bool) (x *X) {
-	x = &X{prefix: prefix, Verbose: verbose}
+	x = &X{prefix: prefix, Verbose: verbose, preBound: curPreBound}
 	defer func() {
 		if r := recover(); r != nil {
 			if _, ok := r.(divergence); ok {
+				return
+			}
+			if u, ok := r.(interface{ VerifUnsupported() string }); ok {
+				x.diverge = "unsupported construct: " + u.VerifUnsupported()
 				return
 			}
 			x.fails = append(x.fails, Failure{
@@ -434,7 +472,9 @@ func Explore(t testing.TB, cfg Cfg, body func(*X)) *Space {
 	initDeadline()
 	start := time.Now()
 	si, sn := shard()
-	sp := &Space{Name: cfg.Name, DevBound: cfg.DevBound, Exhaustive: true, outcomeHashes: map[[12]byte]struct{}{}}
+	sp := &Space{Name: cfg.Name, DevBound: cfg.DevBound, PreemptBound: cfg.PreemptBound, Exhaustive: true, outcomeHashes: map[[12]byte]struct{}{}}
+	curPreBound = cfg.PreemptBound
+	defer func() { curPreBound = -1 }()
 	if sn > 1 {
 		sp.Shard = fmt.Sprintf("%d/%d", si, sn)
 	}
@@ -493,15 +533,28 @@ func Explore(t testing.TB, cfg Cfg, body func(*X)) *Space {
 			stop, sp.Exhaustive, sp.CapHit = true, false, "divergence"
 			return
 		}
+		if cfg.CheckDeterminism && sp.Executions == 0 {
+			y := runOne(prefix, body, false)
+			if strings.Join(x.labels, "\x00") != strings.Join(y.labels, "\x00") || fmt.Sprint(x.arities) != fmt.Sprint(y.arities) ||
+				strings.Join(x.outcome, "\x00") != strings.Join(y.outcome, "\x00") {
+				EngineError("space %s: nondeterministic replay of the first execution:\n  run1 labels=%v outcome=%v\n  run2 labels=%v outcome=%v",
+					cfg.Name, x.labels, x.outcome, y.labels, y.outcome)
+				stop, sp.Exhaustive, sp.CapHit = true, false, "nondeterminism"
+				return
+			}
+		}
 		sp.observe(x)
 		if len(x.fails) > 0 {
 			recordViolation(cfg.Name, x, body)
 		}
 		// deviation cost of the prefix part
-		cost := 0
+		cost, pcost := 0, 0
 		for i := 0; i < len(prefix) && i < len(x.choices); i++ {
 			if x.isDev[i] && x.choices[i] != 0 {
 				cost++
+			}
+			if x.isPre[i] && x.choices[i] != 0 {
+				pcost++
 			}
 		}
 		from := len(prefix)
@@ -510,6 +563,9 @@ func Explore(t testing.TB, cfg Cfg, body func(*X)) *Space {
 		}
 		for i := from; i < len(x.choices); i++ {
 			if x.isDev[i] && cfg.DevBound >= 0 && cost+1 > cfg.DevBound {
+				continue
+			}
+			if x.isPre[i] && cfg.PreemptBound >= 0 && pcost+1 > cfg.PreemptBound {
 				continue
 			}
 			for alt := 1; alt < x.arities[i]; alt++ {
